@@ -304,6 +304,43 @@ theorem sentOnly_obj {c c' : Core} (h : SentOnly c c') (i : Nat) :
     (c'.objs i).ec = (c.objs i).ec ∧ (c'.objs i).name = (c.objs i).name ∧ (c'.objs i).living = (c.objs i).living := by
   rcases h with h | ⟨f, h⟩ <;> subst h <;> exact ⟨rfl, rfl, rfl, rfl, rfl, rfl, rfl⟩
 
+/-! ## the heart-beat list is not part of the structures the invariant talks about -/
+
+@[simp] theorem hbRemove_c (w : World) (ob : Nat) : (hbRemove w ob).c = w.c := by
+  unfold hbRemove; split <;> rfl
+@[simp] theorem hbRemove_cg (w : World) (ob : Nat) : (hbRemove w ob).cg = w.cg := by
+  unfold hbRemove; split <;> rfl
+@[simp] theorem hbRemove_initBad (w : World) (ob : Nat) : (hbRemove w ob).initBad = w.initBad := by
+  unfold hbRemove; split <;> rfl
+@[simp] theorem hbAdd_c (w : World) (ob : Nat) : (hbAdd w ob).c = w.c := by
+  unfold hbAdd; split <;> rfl
+@[simp] theorem hbAdd_cg (w : World) (ob : Nat) : (hbAdd w ob).cg = w.cg := by
+  unfold hbAdd; split <;> rfl
+@[simp] theorem hbAdd_initBad (w : World) (ob : Nat) : (hbAdd w ob).initBad = w.initBad := by
+  unfold hbAdd; split <;> rfl
+
+@[simp] theorem hbOff_c (w : World) : (hbOff w).c = w.c := by
+  unfold hbOff; split
+  · rfl
+  · split
+    · rfl
+    · simp
+@[simp] theorem hbOff_cg (w : World) : (hbOff w).cg = w.cg := by
+  unfold hbOff; split
+  · rfl
+  · split
+    · rfl
+    · simp
+@[simp] theorem hbOff_initBad (w : World) : (hbOff w).initBad = w.initBad := by
+  unfold hbOff; split
+  · rfl
+  · split
+    · rfl
+    · simp
+@[simp] theorem raise_c (w : World) (m : String) : (raise w m).w.c = w.c := by simp [raise, emit]
+@[simp] theorem raise_cg (w : World) (m : String) : (raise w m).w.cg = w.cg := by simp [raise, emit]
+@[simp] theorem raise_initBad (w : World) (m : String) : (raise w m).w.initBad = w.initBad := by simp [raise, emit]
+
 /-! ## the initial state -/
 
 def Core.empty : Core :=
